@@ -233,6 +233,32 @@ def run(chk):
                         imm_meta.append((t0, op, later, log))
                         distinct.add(json.dumps([t0, op, later, rep]))
                         nontrivial.add(json.dumps([t0, op, later, rep]))
+    # ---- periodic actions of NewThread / ThreadPool: each tick is an action with a due time; one whose disposable
+    # was disposed before that due time (while the previous tick was still running, before the thread ran, ...)
+    # must not start.  Driver and oracle of C35 (harness/ntpdrv.py), only the after-dispose judgements.
+    import ntpdrv
+    pcases = ntpdrv.exhaustive_cases("quick")
+    if not quick:
+        pcases += [ntpdrv.random_case(chk.rng, "quick") for _ in range(3000)]
+    for i, cs in enumerate(pcases):
+        if i % 2:
+            cs["sched"] = "threadpool"
+    pfail = {}
+    with ntpdrv.rebound():
+        for case in pcases:
+            r = ntpdrv.run_case(case)
+            evals += 1
+            hist["periodic"] = hist.get("periodic", 0) + 1
+            for sig, msg in ntpdrv.oracle(case, r):
+                if "invoked-after-dispose" not in sig:
+                    continue                          # state threading, period keeping: C35
+                sz = ntpdrv.size_of(case)
+                sig34 = sig.replace("C35", "C34 periodic")
+                if sig34 not in pfail or sz < pfail[sig34][0]:
+                    pfail[sig34] = (sz, {"case": dict(case, kind="periodic"), "outcome": r.outcome,
+                                         "implementation_log": [list(map(str, e)) for e in r.log], "what": msg})
+    for sig, (sz, rep) in pfail.items():
+        chk.violation(sig, rep, size=sz)
     t_explore = time.time() - t_start
     bad, logs = lib.correspondence("C34", "to", R.T_IMPORTS, R.T_CASE_TY, R.T_MODEL_FN, "toutcome_eqb", coq_cases,
                                    shard=150)
@@ -308,6 +334,17 @@ def replay(chk, path):
         print(json.dumps({"case": case, "log": log, "oracle": bad}, indent=1))
         for sig, msg in bad:
             chk.violation(sig, {"case": case, "what": msg, "implementation_log": log}, size=1)
+    elif case.get("kind") == "periodic":
+        import ntpdrv
+        pc = {k: v for k, v in case.items() if k != "kind"}
+        with ntpdrv.rebound():
+            r = ntpdrv.run_case(pc)
+        bad = [b for b in ntpdrv.oracle(pc, r) if "invoked-after-dispose" in b[0]]
+        print(json.dumps({"case": pc, "log": [list(map(str, e)) for e in r.log], "oracle": bad}, indent=1, default=str))
+        for sig, msg in bad:
+            chk.violation(sig.replace("C35", "C34 periodic"),
+                          {"case": case, "what": msg, "implementation_log": [list(map(str, e)) for e in r.log]},
+                          size=ntpdrv.size_of(pc))
     else:
         sched, fine = data["schedule"], data.get("fine", False)
         with E.rebound():
